@@ -69,29 +69,32 @@ Print Assumptions C10_example_history.
 
 (* ---------------------------------------------------------------- *)
 (* Hunt list of the ICMPv6 spoofer (icmp6spoof.go StartHunt/StopHunt), Model/AliasHunt.v.
-   As found, StartHunt stores the packet.Addr as passed: when the application hunts the sender of
+   As found, StartHunt stored the packet.Addr as passed: when the application hunts the sender of
    the frame it is looking at (StartHunt(frame.SrcAddr)), the hunt list entry and the spoof loop
-   alias the receive buffer ([hunt6_copies] = false). *)
+   aliased the receive buffer.  Repaired in /repo (94488cb, and c1ee67c for arp_spoofer): StartHunt
+   copies addr.MAC; [hunt6_copies] = true. *)
 
-(* the property fails: hunt the sender of a frame, reuse the buffer, StopHunt misses the entry *)
-Theorem C10_hunt6_refuted :
-  exists scr p, running hunt6_copies (hshared scr 0 p) <> running hunt6_copies (hfresh 0 p).
-Proof. exact hunt_refuted_ref. Qed.
-Print Assumptions C10_hunt6_refuted.
-
-(* outside the recorded class (no StartHunt on a frame view in the history) the hunt list is unaffected *)
-Theorem C10_hunt6_partial : forall scr p,
-  known_C10_hunt6 p = false ->
+(* full property for the repaired code: for every history and every scribble the hunt list of the
+   shared-buffer run equals that of the fresh-buffer run *)
+Theorem C10_hunt6_noninterference : forall scr p,
   hunted (herun hunt6_copies (hshared scr 0 p)) = hunted (herun hunt6_copies (hfresh 0 p)).
-Proof. exact (hunt_partial hunt6_copies). Qed.
-Print Assumptions C10_hunt6_partial.
-
-Example C10_hunt6_partial_nonvacuous : known_C10_hunt6 [HStop [2;0;0;0;0;1]; HStop [2;0;0;0;0;2]] = false.
-Proof. exact hunt_partial_nonvacuous. Qed.
-Print Assumptions C10_hunt6_partial_nonvacuous.
-
-(* and a StartHunt that copies addr.MAC restores the full property for every history *)
-Theorem C10_hunt6_if_copied : forall scr p,
-  hunted (herun true (hshared scr 0 p)) = hunted (herun true (hfresh 0 p)).
 Proof. exact hunt_noninterference_copy. Qed.
-Print Assumptions C10_hunt6_if_copied.
+Print Assumptions C10_hunt6_noninterference.
+
+(* the defect of the unrepaired code, kept as a theorem about the model with the copy removed:
+   hunt the sender of a frame, reuse the buffer: StopHunt misses the entry *)
+Theorem C10_hunt6_without_copy_refuted :
+  exists scr p, running false (hshared scr 0 p) <> running false (hfresh 0 p).
+Proof. exact hunt_refuted_ref. Qed.
+Print Assumptions C10_hunt6_without_copy_refuted.
+
+(* histories without a StartHunt on a frame view were never affected, copy or not *)
+Theorem C10_hunt6_no_start_unaffected : forall cp scr p,
+  known_C10_hunt6 p = false ->
+  hunted (herun cp (hshared scr 0 p)) = hunted (herun cp (hfresh 0 p)).
+Proof. exact hunt_partial. Qed.
+Print Assumptions C10_hunt6_no_start_unaffected.
+
+Example C10_hunt6_no_start_nonvacuous : known_C10_hunt6 [HStop [2;0;0;0;0;1]; HStop [2;0;0;0;0;2]] = false.
+Proof. exact hunt_partial_nonvacuous. Qed.
+Print Assumptions C10_hunt6_no_start_nonvacuous.
